@@ -65,6 +65,7 @@ def sv_cases(draw: Any, feat: Optional[S.Features] = None, nrand: int = 2, max_l
             join_statements=draw(st.booleans()),
             proto_late=draw(st.integers(0, 3)) == 2,
             crlf=draw(st.integers(0, 3)) == 1,
+            op_spacing=draw(st.booleans()),
         )
     return SVCase(unit, rand, style, cfg)
 
